@@ -28,7 +28,7 @@ RULE = ("plan = initial frames (constructor plans incl. scalars, length-1 values
 CASES = {"quick": 1200, "thorough": 6000}
 
 KINDS = ["f", "i", "b", "s", "u", "d", "t", "td", "o", "ob"]
-NAMES = gen.NAMES_PLAIN + gen.NAMES_CLASH + gen.NAMES_NONID[:3]
+NAMES = gen.NAMES_PLAIN + gen.NAMES_CLASH + gen.NAMES_NONID[:3] + ["__id", "__k__", "_x", "_"]     # identifiers Python treats specially
 INPLACE = ["setitem", "setitem", "setattr", "setdefault", "ior", "delitem", "delattr", "pop", "popitem", "colnames"]
 TRANSFORM = ["filter", "slice", "head", "tail", "drop_na", "sample", "unique", "sort", "select", "unselect", "rename",
              "modify", "modify_callable", "modify_grouped", "cbind", "rbind", "update", "left_join", "inner_join", "semi_join",
@@ -40,11 +40,11 @@ BUILTIN = set(dir(di.DataFrame()))
 @st.composite
 def _value(draw, n):
     """A value plan for construction / assignment: how long it is relative to nrow."""
-    how = draw(st.sampled_from(["full", "full", "full", "scalar", "one", "other", "twod", "twod_view"]))
+    how = draw(st.sampled_from(["full", "full", "full", "scalar", "one", "other", "twod", "twod_view", "zerod"]))
     kind = draw(st.sampled_from(KINDS))
     if how == "full":
         return {"how": how, "kind": kind, "vals": draw(gen.values(kind, n))}
-    if how in ("scalar", "one"):
+    if how in ("scalar", "one", "zerod"):
         v = draw(gen.values(kind, 1, na="none" if kind in ("f", "s", "u") else None))
         return {"how": how, "kind": kind, "vals": v}
     if how == "other":
@@ -106,6 +106,9 @@ def _mk_value(v, n):
         return (x.item() if hasattr(x, "item") and kind in ("f", "i", "b") else x), "scalar"
     if v["how"] == "one":
         return build.np_array(kind, vals), 1
+    if v["how"] == "zerod":
+        # a zero-dimensional array: scalar-like, so it may be broadcast or rejected - but never stored as it is
+        return build.np_array(kind, vals).reshape(()), "zerod"
     if v["how"] == "other":
         if len(vals) == n:
             vals = vals + vals[:1]
@@ -191,8 +194,10 @@ def _construct(c, ctx):
         kw[nm] = val
         lens.append(ln)
     real = [l for l in lens if isinstance(l, int)]
+    zerod = "zerod" in lens                   # scalar-like: rejected or broadcast, both fine; stored as it is, never
+    lens = ["scalar" if l == "zerod" else l for l in lens]
     target = max([1 if l == "scalar" else l for l in lens if l != "twod"], default=0)
-    bad = "twod" in lens or any(l not in (1, target) for l in real) or (target == 0 and ("scalar" in lens or 1 in real))
+    bad = "twod" in lens or any(l not in (1, target) for l in real) or (target == 0 and ("scalar" in lens or 1 in real)) or zerod
     try:
         data = di.DataFrame(kw)
     except Exception as e:
@@ -248,9 +253,13 @@ def _check(plan, ctx):
             val, ln = _mk_value(s["value"], n)
             snap = build.snap_frame(data)
             had_attr = {k for k in data.__dict__}
+            zerod = ln == "zerod"
+            if zerod:
+                ln = "scalar"
             legal = ln in ("scalar", 1, n) if names else ln != "twod"
-            if ln in ("scalar", 1) and names and n == 0:
-                legal = None                      # broadcasting into a 0-row frame may raise or give 0 rows
+            if (ln in ("scalar", 1) and names and n == 0) or zerod:
+                legal = None                      # broadcasting into a 0-row frame may raise or give 0 rows;
+                                                  # a zero-dimensional array may be rejected or treated as a scalar
             if op == "setdefault" and name in names:
                 got = ctx.call(where, lambda: data.setdefault(name, val))
                 if got is not dict.__getitem__(data, name) or build.snap_frame(data) != snap:
@@ -282,7 +291,9 @@ def _check(plan, ctx):
                                     stray=sorted({k for k in data.__dict__} - had_attr))
                 ctx.cls("assignment_rejected")
                 continue
-            if legal is False or (legal is None and len(dict.__getitem__(data, name)) != n):
+            if zerod:
+                invariant(data, None, where + " (after assigning a zero-dimensional array)")
+            if legal is False or (legal is None and len(dict.__getitem__(data, name)) != (n if names else 1 if zerod else n)):
                 raise Violation(f"{where}: a value of mismatching length was stored instead of rejected", length=ln, nrow=n,
                                 stored=len(dict.__getitem__(data, name)))
             if name not in names and model.names is not None:
@@ -438,6 +449,12 @@ def _transform(op, x, y, s, names, n):
         return x.rename(**{new: old}), [new if c == old else c for c in names]
     if op == "modify":
         val, ln = _mk_value(s["value"], n)
+        if ln == "zerod":
+            try:
+                out = x.modify(**{s["name"]: val})
+            except Exception:
+                raise _Skip()
+            return out, None
         if ln not in ("scalar", 1, n) or (ln in ("scalar", 1) and n == 0):
             raise _Skip()
         nm = s["name"]
